@@ -102,7 +102,8 @@ def run(ctx):
                                summary=f"{o}: impl {x[:80]} model {y[:80]} (both satisfy the property)")
     # the real tool with an identity child: output must equal input, line counts match
     texts = []
-    base = ["", "a", "a\rb", "a\r", "\r", "ab cd, ef-gh", "aaaa€", "é" * 7, "a" * 200 + " " + "b" * 30, "😀😀😀", "x, y, z", "a\r\rb\r"]
+    base = ["intro" + "." * 300 + " 12", "a" + " " * 255 + "b" + " " * 256 + "c" + " " * 257 + "d" + ", " * 200 + "e", "x" * 30 + "\u20ac" * 90 + "y",
+            "", "a", "a\rb", "a\r", "\r", "ab cd, ef-gh", "aaaa€", "é" * 7, "a" * 200 + " " + "b" * 30, "😀😀😀", "x, y, z", "a\r\rb\r"]
     for _ in range(10 if ctx.tier == "quick" else 60):
         ls = [rng.choice(base) if rng.random() < 0.6 else "".join(rng.choices(SYMS + ["\r"], k=rng.randrange(0, 40))) for _ in range(rng.randrange(0, 8))]
         texts.append(ls)
